@@ -60,3 +60,14 @@ def register_all(prop):
                "termination other than a plain close, or >= 10 cycles; distinct = distinct (types, path, cut point, cycles, options)."),
          assumptions=["after a cut or timeout the harness waits until the session table no longer lists the run id before re-registering ('shortly after the old one ended')",
                       "goroutine/descriptor counts are process-wide (harness included) and compared between the middle and the end of identical cycles"])
+    prop("C11", qshards=8, tshards=16, qlimit=480, tlimit=3000,
+         rule=("pool_protocol: a scripted client owns the frpc side: poolCount 0..8 vs maxPoolCount {default,1,2,5}, userConnTimeout 1..2 s, accept "
+               "path (direct tcp listener, tcp group, tcpmux CONNECT muxer, stcp visitor listener), 0..12 simultaneous users, a cyclic behaviour "
+               "script per requested work connection (prompt, late, deliver-then-die, never), unrequested surplus offers on top of a full pool, "
+               "and a session end (control cut / re-login) overlapping the users. Oracle: requests in advance == min(poolCount, maxPoolCount); "
+               "pool <= capacity and >= surplus offers closed; every work connection gets <= 1 StartWorkConn naming the proxy and (direct paths) "
+               "the user's real address and carries exactly one user's tagged data; every user is bridged or closed within timeout + 3 s, never "
+               "open without a peer; all-prompt scripts bridge every user; after the session ends every unconsumed work connection sees EOF in "
+               "4 s. gated_late_workconn: a work connection held inside registration while the session is torn down must be closed, not parked. "
+               "non-trivial = >= 2 users, hostile delivery, surplus, or a session end with users; distinct = distinct case."),
+         assumptions=["timing oracles (bounds of seconds) use confirm-on-retry", "https muxer path is exercised in C01/C06, not here"])
